@@ -2,9 +2,10 @@
 import itertools
 
 from worldcheck import *
+from sched import hx
 
 PROP = "C09"
-THEOREMS = []
+THEOREMS = [tuple(x) for x in json.load(open(os.path.join(VERIF, "lib", "pins", PROP + ".json")))]
 
 NOTE = b"Note: including file: "
 
@@ -58,6 +59,30 @@ def showincludes_suite(run, rng, har, drv, tier):
     return len(cases), len(bad)
 
 
+def restat_probe(run, har):
+    """F10 probe: `-t restat` (adopt mode) must not forget the dependencies a step reported on its last real run"""
+    man = "rule r\n  command = cmd $tag $out $opts\nbuild o: r s.c\n  tag = t\n  opts = depsfrom=s.c\n"
+    steps = ["file %s %s" % (hx("build.ninja"), hx(man)), "file %s %s" % (hx("s.c"), hx("#include h.h\n")), "file %s %s" % (hx("h.h"), hx("v0")),
+             S.inv_cmd(1, None, False, [], "-"),
+             "touch %s" % hx("s.c"),
+             S.inv_cmd(1, None, True, [], "-"),
+             "file %s %s" % (hx("h.h"), hx("v1")),
+             S.inv_cmd(1, None, False, [], "-")]
+    rep = S.run_histories(har, ["\n".join(steps)])[0]
+    where = {"scenario": "\n".join(steps)}
+    if isinstance(rep, str) or len(rep) < 3:
+        run.report_failure(None, "restat probe: harness died", where)
+        return
+    if not rep[0].result.startswith("ok:1") or rep[1].result != "ok:0":
+        run.report_failure(None, "restat probe: unexpected results %s / %s" % (rep[0].result, rep[1].result), where)
+        return
+    if rep[2].result == "ok:0":
+        run.report_failure("restat-drops-discovered-deps",
+                           "after `-t restat` a change of a previously discovered dependency (h.h) no longer rebuilds the step", where)
+    elif not rep[2].result.startswith("ok:1"):
+        run.report_failure(None, "restat probe: final invocation %s" % rep[2].result, where)
+
+
 def monitor_missing_dep_never_fails(run, where, inv, meta, hist, ii, rep):
     if inv.result.startswith("err:"):
         msg = unhexs(inv.result[4:]).decode("utf-8", "replace")
@@ -83,6 +108,7 @@ def main(tier, seed, replay=None):
         state["done"] = True
         drv = build_driver()
         har, _ = build_harness()
+        restat_probe(run, har)
         n, bad = showincludes_suite(run, random.Random(seed), har, drv, tier)
         run.coverage["showincludes_cases"] = n
         run.coverage["showincludes_disagreements"] = bad
